@@ -143,6 +143,13 @@ class ContractMixin:
                 if w == 0:
                     self.ex.st.inexact.append(f'{con.qualname} may raise {ename} for unstated reasons')
                     raise PyRaise(Exc(ecls, (Opaque('contract'),)))
+        # declared effects: in-place narrowing of an argument (the caller's object): replayed on the caller's state,
+        # which yields the caller's frame obligation when that object is not fresh
+        for pname, c in con.narrows.items():
+            tgt = env.get(pname)
+            newdt = self.eval_clause(c.node, c.globs, self.clause_env(c, env))
+            if isinstance(tgt, SV) and isinstance(tgt.ty, TNode):
+                self.effect_write(tgt, 'data_type', newdt, fr, node)
         # normal outcome
         result = None
         for c in con.result_is:
@@ -196,6 +203,7 @@ class ContractMixin:
         if sp.z3fun is None:
             params, tys, rty = self.spec_sig(sp)
             sp.z3fun = z3.RecFunction(sp.name, *[t.z3sort() for t in tys], rty.z3sort())
+            recfuns.declare(sp.z3fun)
         return sp.z3fun
 
     def define_spec(self, sp: SpecFn):
@@ -223,13 +231,21 @@ class ContractMixin:
             arms.append((cond, sub.term(payload, rty)))
         if not arms:
             raise Untranslatable(f'spec function {sp.name} has no path')
+        # the explored paths must cover every input (a silently dropped path would make the default arm wrong)
+        cover = z3.Solver()
+        cover.set('timeout', 5000)
+        cover.add(recfuns.abstract(z3.Not(z3.Or(*[c for c, _ in arms]))))
+        if cover.check() != z3.unsat:
+            raise Untranslatable(f'spec function {sp.name}: explored paths are not exhaustive '
+                                 f'({cover.check()}): translation refused')
         t = arms[-1][1]
         for cond, val in reversed(arms[:-1]):
             t = z3.If(cond, val, t)
         recfuns.define(f, consts, t)
         self.spec_defs[sp.name] = t
         if sub.obligations:
-            bad = [o for o in sub.obligations if o.kind != 'pre']
+            # pruned branches of a spec translation are covered by the exhaustiveness check above
+            bad = [o for o in sub.obligations if o.kind not in ('pre', 'pruned')]
             if bad:
                 raise Untranslatable(f'spec function {sp.name} is not total: {bad[0].name}')
 
@@ -350,6 +366,17 @@ class ContractMixin:
             _AUX_COMP[key] = f
         return _AUX_COMP[key], caps
 
+    def declared_narrow_target(self, target):
+        """(param name, clause, declared new type) when target is a parameter of the function under verification
+        whose contract declares its in-place narrowing"""
+        d = getattr(self, 'fuv_narrows', None)
+        if not d:
+            return None
+        for pname, (sv, clause, val) in d.items():
+            if sv is target:
+                return pname, clause, val
+        return None
+
     def fused_fold(self, is_any, meta):
         """any(...)/all(...) over a comprehension as ONE recursive function (map and fold fused):
         any_k(s, caps) = len(s) > 0 and (body(s[0]) or any_k(s[1:], caps))"""
@@ -403,7 +430,12 @@ class ContractMixin:
         noop = old == new
         self.writes.append(('W2', sort, name))
         self.ex.st.effects.append((target, old, new, target.fresh))
-        if not target.fresh:
+        declared = self.declared_narrow_target(target)
+        if declared is not None:
+            # the function under verification declares this narrowing in its contract: checked against it
+            self.obligation(f'{self.fuv_name}/narrows_{declared[0]}', 'post', declared[1].tag,
+                            new == self.term(declared[2], f.ty), node)
+        elif not target.fresh:
             self.obligation(f'{self.fuv_name}/frame:{name}@{fr.qualname}', 'frame', 'C16', noop, node)
         if self.ex.entails(noop):
             return None
